@@ -449,7 +449,8 @@ def leaf_texts(t, acc):
 # ======================================================================================= generators
 BASES = ["http://192.168.1.2:49152/desc/root.xml", "http://h/d.xml", "https://dev.example:8443/a/b/desc.xml?x=1",
          "http://[fe80::1]:80/upnp/desc"]
-REL_URLS = ["/svc/%s.xml", "svc/%s", "../%s/scpd.xml", "%s.xml", "/a/b/../%s", "./%s", "%s?q=1", "//h2:81/%s", "httpd/%s", "https.d/%s.x"]
+REL_URLS = ["/svc/%s.xml", "svc/%s", "../%s/scpd.xml", "%s.xml", "/a/b/../%s", "./%s", "%s?q=1", "//h2:81/%s", "httpd/%s", "https.d/%s.x",
+            "/proxy/%s?target=http://10.0.0.7:49152/ctl", "%s?next=https://h/x", "../%s#frag://y", "%s;p=a://b"]
 ABS_URLS = ["http://192.168.1.2:49152/x/%s", "http://other.example/%s.xml", "https://h2:444/%s"]
 TEXTS = ["", "A", "Acme Corp", "Living Room <TV> & \"Radio\"", "Süßes Gerät 漢字 🎵", " padded ", "a]]>b", "1.0", "x" * 40,
          "line1\nline2", "tab\there"]
@@ -635,7 +636,21 @@ def rand_render(rng, ship=False):
             "style": style, "ship": ship}
 
 
+def share_scpd(rng, d):
+    """Two services (of different types) described by one SCPD document at one URL - common on real gateways
+    (WANIPConnection / WANPPPConnection).  Each service must still get its own actions and state variables."""
+    svcs = all_services(d)
+    if len(svcs) < 2:
+        return
+    a, b = rng.sample(range(len(svcs)), 2)
+    src, dst = svcs[a], svcs[b]
+    for k in ("scpd", "vars", "actions", "corrupt"):
+        dst[k] = copy.deepcopy(src[k])
+
+
 def mk_case(rng, d, strict, render, base=None):
+    if rng.random() < 0.3:
+        share_scpd(rng, d)
     vars_ = [v for s in all_services(d) for v in s["vars"]]
     rng.shuffle(vars_)
     return {"kind": "def", "strict": strict, "base": base or rng.choice(BASES), "probes": probes_for(rng, vars_),
